@@ -236,6 +236,9 @@ func c09Mux(rc *RC, e *E2, ns string) (xmpp.Handler, *ibb.Handler, *history.Hand
 }
 
 func runC09(rc *RC) {
+	if d := rc.S.ConfigureDense(); d != "" {
+		rc.Describe("%s", d)
+	}
 	if rc.Ch.Chance("workload", 1, 2) {
 		rc.Net.Chunk = func() int { return 1 + rc.Ch.Int("net", 120) }
 	}
